@@ -35,7 +35,9 @@ def gen_program(rng, fw, maxlen):
         shape = [max(1, s) for s in shape]
     special = rng.random() < 0.4
     env = [gen_tensor(rng, shape, special), gen_tensor(rng, shape, special)]
-    shapes = [list(shape), list(shape)]
+    # a third input that cat / the right-hand side of ⊕ receive as a PLAIN tensor (the signatures allow it): every element valid
+    env.append(dict(gen_tensor(rng, shape, False), mask=[1] * numel(shape), plain=True))
+    shapes = [list(shape), list(shape), list(shape)]
     prog = []
     ops = ["index", "slice", "gather", "permute", "transpose", "squeeze", "reshape", "narrow", "cat", "stack", "bin", "bin_scalar", "pow_scalar", "square", "sqrt", "sum", "matmul", "fix_nan"]
     ops += ["squeeze_all", "unsqueeze"] if fw == "torch" else ["mean", "variance", "std"]
@@ -83,6 +85,8 @@ def gen_program(rng, fw, maxlen):
         elif k == "bin":
             same = [j for j, t in enumerate(shapes) if t == s]
             ins = {"k": k, "f": rng.choice(["add", "sub", "mul", "div"]), "r1": r, "r2": rng.choice(same)}; ns = list(s)
+            if fw == "torch" and ins["f"] == "div" and rng.random() < 0.5:
+                ins["via"] = "method"
         elif k == "bin_scalar":
             ins = {"k": k, "f": rng.choice(["add", "sub", "mul", "div"]), "r": r, "c": mtexec.f64_bits(rng.choice([2.0, -1.0, 0.5, 3.0]))}; ns = list(s)
         elif k == "pow_scalar":
@@ -172,6 +176,9 @@ def run(ctx):
             if len(ctx.samples) < 3:
                 ctx.sample({"framework": fw, "shape": env[0]["shape"], "prog": prog})
             oracle(ctx, fw, env, prog, steps, info)
+            if steps and steps[-1].get("changed_registers"):
+                ctx.violation("an operation changed an earlier value (its operand or another register)", info, {"registers": steps[-1]["changed_registers"]}, True, size=len(prog),
+                              signature={"op": "mutation", "fw": fw})
             msteps = mo["steps"]
             for n, st in enumerate(steps):
                 ins = prog[n]
